@@ -136,10 +136,34 @@ func (s *Solver) Assert(t *Term) {
 	s.send("(assert " + t.SMT() + ")")
 }
 
+// CheckAssuming checks the current context together with one extra formula, which is
+// introduced through a defined Boolean name (no push/pop).
+func (s *Solver) CheckAssuming(t *Term) string {
+	s.declare(t)
+	neg := false
+	if t.op == ONot {
+		neg = true
+		t = t.args[0]
+	}
+	name := fmt.Sprintf("q!%d", t.id)
+	if !s.declared[name] {
+		s.declared[name] = true
+		s.send(fmt.Sprintf("(define-fun %s () Bool %s)", name, t.SMT()))
+	}
+	if neg {
+		return s.check(fmt.Sprintf("(check-sat-assuming ((not %s)))", name))
+	}
+	return s.check(fmt.Sprintf("(check-sat-assuming (%s))", name))
+}
+
 // Check returns "sat", "unsat" or "unknown" (errors count as unknown).
 func (s *Solver) Check() string {
+	return s.check("(check-sat)")
+}
+
+func (s *Solver) check(cmd string) string {
 	t0 := time.Now()
-	s.send("(check-sat)")
+	s.send(cmd)
 	s.send(`(echo "@@sync")`)
 	res := ""
 	bad := false
